@@ -5,11 +5,11 @@ from fractions import Fraction
 from . import common as C
 
 RULE = ("cases = a fixed corpus of boundary cases (i64/i128 MIN, zero denominators, the 2^53 comparison pairs of the "
-        "fixed defect 52e0a74, sqrt(2^63) products, the first unsupported FF modulus) + per integer type (i64, i128, "
-        "BigInt): every operator + - * / % gcd lcm neg is_unit normalizing_unit inv on boundary-biased operands "
+        "fixed defect 52e0a74, sqrt(2^63) products, the first unsupported FF modulus) + per integer type (i32, i64, "
+        "i128, BigInt): every operator + - * / % gcd lcm neg is_unit normalizing_unit inv on boundary-biased operands "
         "(0, +-1, small, 2^31+-k, 2^53+-k, 2^63-k, 2^127-k, sqrt of the limit, smooth numbers, 100-300 digit BigInts, "
         "pairs whose sum/product lands next to the limit, exact multiples) and on all pairs of extreme values; "
-        "rationals over the three integer types: new/from, + - * /, neg, inv, abs, predicates, cmp/==/<,<=,>,>= on "
+        "rationals over the four integer types: new/from, + - * /, neg, inv, abs, predicates, cmp/==/<,<=,>,>= on "
         "structured pairs (shared and non-coprime denominators, sums and products that cancel to integers, 0 or 1, "
         "reciprocal/opposite/equal-valued pairs, near-equal pairs p/q vs (pk+-1)/(qk), consecutive integers beyond "
         "2^53, machine-limit numerators), operation histories of 1..40 mixed steps (with rejected steps: zero "
@@ -17,7 +17,7 @@ RULE = ("cases = a fixed corpus of boundary cases (i64/i128 MIN, zero denominato
         "of all four operators and cmp on all pairs of small fractions; FF<p> for p in {2,3,5,7} exhaustively on "
         "-p-1..2p+1 and for p in {251, 46337, 46349, 65537, 2^31-1} (and the rejected moduli 0, -5) on boundary-biased "
         "i32 operands, every inverse of one prime field; FF2 exhaustively plus From<i64/i128/BigInt>; QuadInt<T, D> for "
-        "D in {-1,-3,-2,-7,2,3,5} (and the rejected D = 4, -4) over the three integer types: + - * neg conj norm == "
+        "D in {-1,-3,-2,-7,2,3,5} (and the rejected D = 4, -4) over the four integer types: + - * neg conj norm == "
         "predicates, components next to sqrt(limit/2), and an exhaustive sweep of the product on components -2..2 "
         "(all shortcut branches). Every binary operator is evaluated in the six forms a.b, &a.&b, a.&b, &a.b, a.=b, "
         "a.=&b (negation in two) and the forms must agree (FORMS-DIFFER otherwise); results, including every panic, are "
@@ -100,6 +100,8 @@ def property_holds(case, impl):
 def _property_holds(case, impl):
     if "FORMS-DIFFER" in impl or "ORDER-INCONSISTENT" in impl or impl == "TOP-PANIC":
         return False
+    if impl == "UNREPRESENTABLE":      # an operand does not fit the integer type of the case (harness-level)
+        return None
     t = case.split()
     k = t[0]
     if k == "int":
@@ -186,6 +188,39 @@ def _property_holds(case, impl):
         if op == "div":
             return 0 <= v < p and (v * b - a) % p == 0
         return v == {"add": a + b, "sub": a - b, "mul": a * b}[op] % p
+    if k == "ff1":
+        p, op, a = int(t[1]), t[2], int(t[3])
+        if p <= 0:
+            return impl == "P"
+        r = impl.split()
+        if r[0] in BAD or int(r[0]) != a % p:
+            return False
+        if op == "pred":
+            return r[1] == ("1" if a % p == 0 else "0") + ("1" if a % p == 1 else "0")
+        if r[1] == "P":
+            return None
+        if op == "neg":
+            return int(r[1]) == (-a) % p
+        if r[1] == "N":
+            return a % p == 0
+        return 0 <= int(r[1]) < p and (int(r[1]) * a) % p == 1 % p
+    if k == "run":
+        n, d = int(t[3]), int(t[4])
+        if d == 0:
+            return None
+        x = Fraction(n, d)
+        r = impl.split()
+        if r[0] in BAD:
+            return False if t[1] == "big" else None
+        if r[0] != _canon(x):
+            return False
+        if t[2] == "pred":
+            return r[1] == "".join("1" if b else "0" for b in (x == 0, x == 1, x.denominator == 1))
+        if r[1] == "P":
+            return False if t[1] == "big" else None
+        if t[2] == "inv":
+            return (x == 0) if r[1] == "N" else (x != 0 and r[1] == _canon(1 / x))
+        return r[1] == _canon(-x if t[2] == "neg" else abs(x))
     if k == "quad" and t[3] in ("add", "sub", "mul"):
         D = int(t[2])
         a, b, c, d = (int(x) for x in t[4:8])
